@@ -73,7 +73,9 @@ CLAIMS.update({
    technique="Coq invariant lifted over the whole run (SimLift.run_pres) + arithmetic conservation lemma + differential correspondence of holdings at every callback and step end",
    text="Theorems C05_* (props/C05.v): for every configuration, runner tape, agent behaviour and fundamental path the final holdings are the endowment folded, in order, "
         "with exactly the run's fills, and this identity holds after every atomic update (so nothing else changes holdings and each round is applied once, before notifying); "
-        "one fill conserves total cash and every market's total shares (self-trades included). The Level-S model is run against the real SequentialRunner on generated "
+        "one fill conserves total cash and every market's total shares (self-trades included). Whole runs (theories/SimConserve.v, C05_a_run_conserves_cash_and_shares): with distinct agent ids and "
+        "every agent holding a (possibly zero) position in every market, a run that ends without exception leaves total cash and each market's total shares exactly as at the start - every fill "
+        "of such a run names a configured market and two existing agents (from the C11 callback theorem + a lifted invariant). The Level-S model is run against the real SequentialRunner on generated "
         "simulations every run; holdings are compared at every callback and step end; a monitor written from the property text recomputes the fold from the ground-truth fills.",
    note=S_NOTE),
  "C09": dict(level="proof", suites=["S"], design="5/C09",
